@@ -12,13 +12,21 @@
 (* grouped consumer creates the receiver for the first message of a group,  *)
 (* newWindowByTime takes its time as the first time).                       *)
 (*                                                                          *)
-(* Design level only: barrier times come from the system clock              *)
-(* (idle/period timers of the barrier node), so no deterministic binding to *)
-(* the real node exists without a clock hook.  Checked: the batch a barrier *)
-(* emits holds exactly the received points of its interval                  *)
+(* Group deletion (DeleteGroup message, sent by barrier().delete(TRUE) right *)
+(* after the barrier): the group's window state is dropped; if the group    *)
+(* comes back it starts an empty window with the first due time computed    *)
+(* from its next point, and from then on holds exactly the points of its    *)
+(* period received since (the ghost histories restart with the group).      *)
+(*                                                                          *)
+(* Binding: barrier times of the real barrier node are data times (last     *)
+(* point time + idle) but WHEN it fires is wall-clock idleness, so the      *)
+(* driver works in phases (write, await deletion of every group through the *)
+(* window node's working_cardinality, write again) and WindowTrace applies  *)
+(* BStep/RBStep + deletion at its Quiet line.  Checked here: the batch a    *)
+(* barrier emits holds exactly the received points of its interval          *)
 (* (WindowContents as for points), the ring still refines the sequence      *)
-(* (purge on an empty, never used ring becomes reachable), and the barrier  *)
-(* schedule (BarrierSchedule).                                               *)
+(* (purge on an empty, never used ring becomes reachable), the barrier      *)
+(* schedule (BarrierSchedule), all of it across deletions and come-backs.   *)
 EXTENDS WindowRing
 
 VARIABLE nb     \* number of barriers so far
@@ -57,9 +65,26 @@ Barrier(g, t) ==
     /\ nb' = nb + 1
     /\ UNCHANGED <<cfg, recv, n>>
 
+(* DeleteGroup for g (counted in nb to keep the model finite).  The group's *)
+(* next point or barrier creates it again: DueChoices sees started = FALSE  *)
+(* and takes the first due time from that message; any time is acceptable   *)
+(* (the barrier node forgets its last barrier with the group).               *)
+Delete(g) ==
+    /\ nb < MaxBarriers
+    /\ st[g].started
+    /\ st' = [st EXCEPT ![g] = Group0]
+    /\ recv' = [recv EXCEPT ![g] = <<>>]
+    /\ out' = [out EXCEPT ![g] = <<>>]
+    /\ ring' = [ring EXCEPT ![g] = Ring0]
+    /\ hit' = [hit EXCEPT ![g] = {}]
+    /\ remit' = [remit EXCEPT ![g] = <<>>]
+    /\ nb' = nb + 1
+    /\ UNCHANGED <<cfg, n>>
+
 BInit == RInit /\ nb = 0
 BNext == \/ (\E g \in Groups, t \in 0..MaxTime : RPoint(g, t, n + 1)) /\ UNCHANGED nb
          \/ \E g \in Groups, t \in 0..MaxTime : Barrier(g, t)
+         \/ \E g \in Groups : Delete(g)
 BSpec == BInit /\ [][BNext]_wbvars
 
 -----------------------------------------------------------------------------
